@@ -39,12 +39,18 @@ type cfg struct {
 	// latest-synced value): blocks 0..b are in the store because a sync put
 	// them there, and the per-publisher sync client has a history.
 	Prior int
+	// LibHook: the next segment's start is chosen by the library's own
+	// MakeGeneralBlockHook (wrapped by the logging hook), not by the harness
+	LibHook bool
 }
 
 func (c cfg) key() string {
 	k := fmt.Sprintf("ads|L%d|%s|h%d|lat%d%s|stop%d|re%v|D%d,%d,%d|seg%d%v|pre%b", c.L, c.Entry, c.H, c.Latest, c.LatestVia, c.Stop, c.Resync, c.Ds, c.Df, c.Dc, c.Seg, c.SegScoped, c.Pre)
 	if c.Prior > 0 {
 		k += fmt.Sprintf("|prior-sync-of-%d", c.Prior-1)
+	}
+	if c.LibHook {
+		k += "|library-general-hook"
 	}
 	return k
 }
@@ -176,6 +182,7 @@ func run(t *testing.T, c cfg) (o obs) {
 				return cid.Undef, false
 			}))
 		}
+		w.LibHook = c.LibHook
 		sub := w.NewSubscriber(opts...)
 		if c.Latest >= 0 && c.LatestVia != "lastknown" && c.LatestVia != "sync" {
 			if err := sub.SetLatestSync(id.ID, ch.Cids[c.Latest]); err != nil {
@@ -419,7 +426,7 @@ func depthValues(L int) []int64 {
 
 func TestCheck(t *testing.T) {
 	r := vp.New("C01", "model_checking",
-		"configurations: chain length L x entry point (queried head h, explicit head h, announce of h, for every h) x latest-sync state (none, every index, via SetLatestSync or WithLastKnownSync) x stop (none, every index, foreign CID) x resync x depth limits (subscriber, first-sync, per-call; each in {unset, -1, 1, L-1, L, L+1}, at most two set at once) x segment size (disabled, 1..L+1, subscriber-wide or per-call) x every subset of pre-stored blocks, factored as A(what) x B(depth) with two 'how' settings, A x C(how) with two depth settings; plus a boundary sweep on chains of 5-6 (quick) / 5-8 (thorough) ads: every segment size 1..L+1 x every depth limit 1..L+1 of each kind x stop {none, oldest, second-oldest} x entry point; entries chains: M x start x {SyncEntries, SyncOneEntry, SyncHAMTEntries} x depth limits x segment size x pre-stored subsets. Every configuration runs the real subscriber and publisher and is compared with an integer reference model. states = distinct base configurations; transitions = hook calls + requests observed; traces = executions.",
+		"configurations: chain length L x entry point (queried head h, explicit head h, announce of h, for every h) x latest-sync state (none, every index, via SetLatestSync or WithLastKnownSync) x stop (none, every index, foreign CID) x resync x depth limits (subscriber, first-sync, per-call; each in {unset, -1, 1, L-1, L, L+1}, at most two set at once) x segment size (disabled, 1..L+1, subscriber-wide or per-call) x every subset of pre-stored blocks, factored as A(what) x B(depth) with two 'how' settings, A x C(how) with two depth settings; plus a boundary sweep on chains of 5-6 (quick) / 5-8 (thorough) ads: every segment size 1..L+1 x every depth limit 1..L+1 of each kind x stop {none, oldest, second-oldest} x entry point x {the harness's own hook, the library's MakeGeneralBlockHook} choosing the next segment; entries chains: M x start x {SyncEntries, SyncOneEntry, SyncHAMTEntries} x depth limits x segment size x pre-stored subsets. Every configuration runs the real subscriber and publisher and is compared with an integer reference model. states = distinct base configurations; transitions = hook calls + requests observed; traces = executions.",
 		"reference model is the oracle (trusted; written from the statement)",
 		"two combinations whose depth limit the documentation leaves open (resync without stop on a known publisher with FirstSyncDepth set; explicit stop on a never-synced publisher with FirstSyncDepth set) are accepted under either reading",
 		"the block hook decodes each block and names its chain link as the next segment's CID, as the segmented-sync API requires",
@@ -617,6 +624,11 @@ func boundarySweep(t *testing.T, r *vp.Recorder, thorough bool) {
 								c.Dc = d
 							}
 							check(t, r, c)
+							// the same with the library's general hook choosing
+							// the next segment
+							c.LibHook = true
+							check(t, r, c)
+							c.LibHook = false
 							if seg <= 2 && entry != "announce" {
 								c.SegScoped = true
 								check(t, r, c)
